@@ -6,14 +6,14 @@ D=$1; WT=$2
 export GOFLAGS=-mod=mod GOPROXY=off GOSUMDB=off GOTOOLCHAIN=local
 G=/root/go/pkg/mod/golang.org/toolchain@v0.0.1-go1.25.11.linux-amd64/bin/go
 cd $WT || exit 9
-git checkout -q -- . ; git clean -fdq
+git checkout -q -- . ; git clean -fdq; rm -f /tmp/vs.$$.out
 git checkout -q --detach $(git -C /repo rev-parse HEAD) || exit 9
 DEMODIR=$(python3 -c "import json;print(json.load(open('$D/meta.json'))['demo_dir'].strip('/').replace('./',''))")
 TESTS=$(grep -o '^func Test[A-Za-z0-9_]*' $D/demo_test.go | sed 's/func //' | paste -sd'|')
-run_demo() { cp $D/demo_test.go $WT/$DEMODIR/zz_seed_demo_test.go; (cd $WT && $G test -vet=off -count=1 -run "^($TESTS)\$" ./$DEMODIR/ >/tmp/vs.out 2>&1; echo "exit=$?"); grep -a "^--- \|^ok\|^FAIL\|^panic" /tmp/vs.out | head -8; rm -f $WT/$DEMODIR/zz_seed_demo_test.go; }
+run_demo() { cp $D/demo_test.go $WT/$DEMODIR/zz_seed_demo_test.go; (cd $WT && $G test -vet=off -count=1 -run "^($TESTS)\$" ./$DEMODIR/ >/tmp/vs.$$.out 2>&1; echo "exit=$?"); grep -a "^--- \|^ok\|^FAIL\|^panic" /tmp/vs.$$.out | head -8; rm -f $WT/$DEMODIR/zz_seed_demo_test.go; }
 echo "== demo on clean tree (expect exit=0)"; run_demo
 git apply $D/patch.diff || { echo "PATCH DOES NOT APPLY"; exit 8; }
 echo "== demo with patch (expect exit=1)"; run_demo
 echo "== suite with patch (expect no lines)"; $G test -vet=off -count=1 ./... 2>&1 | grep -v "no test files" | grep -v "^ok"
 $G build -tags verif ./... && echo "verif build ok"
-git checkout -q -- . ; git clean -fdq
+git checkout -q -- . ; git clean -fdq; rm -f /tmp/vs.$$.out
